@@ -1140,13 +1140,13 @@ def write_manifest():
                                          if v.get("engine") == "e1"),
              "kind_free_text": "synthetic registries: run-time generated "
              "class graphs, methods and definitions fed to the real compiler "
-             "and dispatch templates under 12 policy configurations; "
+             "and dispatch templates under 13 policy configurations; "
              "rapidcheck-driven, brute-force reference model"},
             {"name": "e2", "path": "harness/e2",
              "serves_properties": ["C01", "C02", "C03", "C09", "C11", "C15"],
              "kind_free_text": "typed universe: 13 real classes (chains, "
              "non-virtual multiple inheritance, virtual diamond), 22 methods "
-             "in 7 parameter kinds, 5 policies built from the stock ones; "
+             "in 7 parameter kinds, 6 policies built from the stock ones; "
              "registration objects constructed at run time; every "
              "virtual_ptr construction route"},
             {"name": "e2t", "path": "harness/e2",
@@ -1155,19 +1155,25 @@ def write_manifest():
              "-fsanitize=thread: concurrent callers and a concurrent updater "
              "of another policy"},
             {"name": "e3", "path": "proggen",
-             "serves_properties": ["C03", "C07", "C11", "C12", "C13", "C20"],
+             "serves_properties": ["C02", "C03", "C07", "C10", "C11", "C12",
+                                   "C13", "C20"],
              "kind_free_text": "seeded generators of C++ programs, compiled "
              "against /repo/include and run; the oracle is inside the "
              "generated program"},
             {"name": "e4", "path": "harness/e4", "serves_properties": ["C05"],
              "kind_free_text": "hash facets and v-table pointer vector "
-             "driven directly over generated id-set histories"},
-            {"name": "e5", "path": "harness/e5", "serves_properties": ["C18"],
+             "driven directly over generated id-set histories (also built "
+             "as the libFuzzer target e4f)"},
+            {"name": "e5", "path": "harness/e5",
+             "serves_properties": ["C14", "C18"],
              "kind_free_text": "static_list and the policy catalogs against "
-             "a vector model; bounded exhaustive + random sequences"},
+             "a vector model; bounded exhaustive + random sequences; "
+             "catalog isolation between policies (also built as the "
+             "libFuzzer target e5f)"},
             {"name": "e6", "path": "harness/e6", "serves_properties": ["C19"],
              "kind_free_text": "forward-declaration writer over generated "
-             "name sets and grammar-built type descriptions"}],
+             "name sets and grammar-built type descriptions (also built as "
+             "the libFuzzer target e6f)"}],
         "checks": checks,
         "not_applicable": na,
         "notes": "See DESIGN.md. known_findings.json lists genuine defects "
